@@ -186,7 +186,7 @@ def make_case(lines, rng, omegas, tags, allow_same=True):
 
 
 def gen_cases(rng, tier):
-    n = int(os.environ.get('VERIF_NCASES', 56 if tier == 'quick' else 400))
+    n = int(os.environ.get('VERIF_NCASES', 48 if tier == 'quick' else 400))
     cases = []
     allow = ['E', 'G', 'H', 'F', 'TF', 'GY', 'K', 'W', 'AM', 'dup', 'TPA', 'TPY', 'TR']
     for i in range(n):
@@ -812,7 +812,23 @@ def run(tier='quick', replay=None):
             res.failed_obl.append(('translate_immittance', 'lcapy/oneport.py ...', str(e)))
             res.obligations += 1
             ti = None
-        model_ok = False
+        # the Coq run of the property files goes on in a thread while the real code runs in worker processes
+        coqstate = {'model_ok': False, 'allr': {}}
+
+        def prove():
+            allr = coqstate['allr']
+            r0 = core.coqc_many(w.dir, ['StampsGen.v', 'ImmittanceGen.v'], timeout=300)
+            allr.update(r0)
+            if all(r[0] for r in r0.values()):
+                r1 = core.coqc_many(w.dir, ['C01model.v', 'C14.v', 'C14reg.v', 'C14imm.v', 'C01.v'], timeout=1500)
+                allr.update(r1)
+                if r1['C01model.v'][0] and r1['C14.v'][0] and r1['C14imm.v'][0]:
+                    r2 = core.coqc_many(w.dir, ['C14model.v'] + (['C01net.v'] if r1['C01.v'][0] else []), timeout=900)
+                    allr.update(r2)
+                    coqstate['model_ok'] = r2['C14model.v'][0]
+                    if r1['C14reg.v'][0] and r2.get('C01net.v', (False,))[0]:
+                        allr.update(core.coqc_many(w.dir, ['C14net.v'], timeout=900))
+        prover = None
         if tr is not None and ti is not None:
             for f in PROPS:
                 texts[f] = open(os.path.join(core.VERIF, 'coq', 'props', f)).read()
@@ -824,25 +840,10 @@ def run(tier='quick', replay=None):
             if bad:
                 res.failed_obl.append(('gate', 'props', '; '.join(bad)))
                 res.obligations += 1
-            log('coqc props')
-            allr = {}
-            r0 = core.coqc_many(w.dir, ['StampsGen.v', 'ImmittanceGen.v'], timeout=300)
-            allr.update(r0)
-            if all(r[0] for r in r0.values()):
-                r1 = core.coqc_many(w.dir, ['C01model.v', 'C14.v', 'C14reg.v', 'C14imm.v', 'C01.v'], timeout=1500)
-                allr.update(r1)
-                if r1['C01model.v'][0] and r1['C14.v'][0] and r1['C14imm.v'][0]:
-                    r2 = core.coqc_many(w.dir, ['C14model.v'] + (['C01net.v'] if r1['C01.v'][0] else []), timeout=900)
-                    allr.update(r2)
-                    model_ok = r2['C14model.v'][0]
-                    if r1['C14reg.v'][0] and r2.get('C01net.v', (False,))[0]:
-                        allr.update(core.coqc_many(w.dir, ['C14net.v'], timeout=900))
-            for f in PROPS:
-                if f not in allr:
-                    res.failed_obl.append(('prerequisite', f, 'not checked: a prerequisite file failed'))
-                    res.obligations += 1
-            res.coq_results(w.dir, allr, {f: texts[f] for f in allr})
-            res.extra['coq_seconds'] = {f: round(r[2], 1) for f, r in allr.items()}
+            log('coqc props (background)')
+            import threading
+            prover = threading.Thread(target=prove)
+            prover.start()
             res.extra['immittance_table'] = ti.summary()
         for f in ('PhasorHom.v', 'PhasorTime.v', 'PhasorReal.v'):
             names = core.obligations_in(open(os.path.join(core.COQ_THEORY, f)).read())
@@ -866,6 +867,18 @@ def run(tier='quick', replay=None):
         log('run impl on %d cases' % len(allc))
         wres_all = core.run_impl('impl_ac.py', allc)
         log('impl done')
+        model_ok = False
+        if prover is not None:
+            prover.join()
+            log('props done')
+            allr = coqstate['allr']
+            model_ok = coqstate['model_ok']
+            for f in PROPS:
+                if f not in allr:
+                    res.failed_obl.append(('prerequisite', f, 'not checked: a prerequisite file failed'))
+                    res.obligations += 1
+            res.coq_results(w.dir, allr, {f: texts[f] for f in allr})
+            res.extra['coq_seconds'] = {f: round(r[2], 1) for f, r in allr.items()}
         wres = wres_all[:len(cases)]
         pres = wres_all[len(cases):len(cases) + len(pcases)]
         ores = wres_all[len(cases) + len(pcases):]
